@@ -19,6 +19,17 @@ def run(tier):
         fc.inputs = {"i": di, "f": df}
         cases.append(rt.Case(i, code, meta=fc, input_text=di))
         specs[i] = fc
+    # open finding F34 is exercised on every run, whatever the seed (one fixed program from a stream that does not depend on VERIF_SEED)
+    import random
+    wg = xgen.G(random.Random(20260927))
+    for _ in range(3000):
+        fc = rgen_flat.gen_case(wg, n, dict(family="parent"))
+        if "parent_tuple_permuted" in getattr(fc, "flags", set()):
+            code, di, df = rgen_flat.render_case(fc, wg, draws)
+            fc.inputs = {"i": di, "f": df}
+            cases.append(rt.Case(n, code, meta=fc, input_text=di))
+            specs[n] = fc
+            break
     events, rejected = rt.run_sharded("c03-" + tier, cases, "syn1", shards)
     for c in rejected:
         fc = c.meta
@@ -38,7 +49,9 @@ def run(tier):
         ck.cell([fc.family, fc.depth, fc.branching, fc.perm, e["conv"]], nontrivial=(fc.depth >= 2 or fc.branching >= 2))
         if e["got"] != e["want"]:
             kind = e["conv"][4:] if e["conv"].startswith("try_") else e["conv"]
-            ck.violation(f"wrong_value|{fc.family}|{fc.perm}|{kind}", dict(family=fc.family, input=fc.inputs["f" if fal else "i"], conversion=e["conv"], source=e["src"], got=e["got"], want=e["want"]))
+            flags = getattr(fc, "flags", set())
+            kc = "from" if kind.startswith("from") else "existing" if kind.endswith("existing") else "into"
+            ck.violation(f"wrong_value|{fc.family}|{fc.perm}|{kind}" if not flags else "region|" + "+".join(sorted(flags)) + f"|wrong_value|{kc}", dict(family=fc.family, input=fc.inputs["f" if fal else "i"], conversion=e["conv"], source=e["src"], got=e["got"], want=e["want"]))
         elif len(ck.samples) < 4 and fc.depth >= 2 and e["draw"] == 0 and e["conv"] in ("owned_into", "from_ref", "ref_into_existing"):
             ck.sample(dict(family=fc.family, permutation=fc.perm, input=fc.inputs["i"], conversion=e["conv"], source=e["src"], got=e["got"]))
     ck.extra["programs"] = n
